@@ -403,6 +403,11 @@ def check_property(prop_id, obls, tier, explanation, level='model_checking', tru
     t0 = time.time()
     seed = int(os.environ.get('VERIF_SEED', '0') or 0)
     obls = [o for o in obls if tier in o.tiers]
+    seen, uniq = set(), []
+    for o in obls:      # an obligation listed twice (same name) would share a work directory: keep the first
+        if o.name not in seen:
+            seen.add(o.name); uniq.append(o)
+    obls = uniq
     kfs = load_kf()
     my_kf = {e['id']: e for e in kfs['finding'] if e['property'] == prop_id and 'id' in e}
     extra_defs = ['-D%s' % k for k in my_kf]
